@@ -1272,3 +1272,36 @@ def present_in_map(self, s, args):
                 if repr(G.describe(body, t["args"][0])).endswith("." + field):
                     return False, "%s calls %s on the cache" % (body.short, nm)
     return True, "insert/contains_key of the same key precedes the lookup on every path; no remove/clear/retain on .%s in the crate" % field
+
+
+@_pred
+def fold_arg_filtered_nonempty(self, s, args):
+    """parts[0] / parts[1..] inside a fold closure whose items passed `.filter(|parts| !parts.is_empty())`"""
+    b = s.body
+    ix = G.describe(b, s.term["args"][1])
+    ok_ix = (ix.kind == "const" and ix.v == 0) or (ix.kind == "agg" and ix.v == "RangeFrom" and ix.args and ix.args[0].kind == "const" and ix.args[0].v <= 1)
+    if not ok_ix:
+        return False, "index needs more than one element"
+    recv = mir.op_place(s.term["args"][0])
+    rr = repr(G.describe(b, s.term["args"][0]))
+    if not re.fullmatch(r"_[23]\**", rr):
+        return False, "indexed vector is not the closure's item parameter (%s)" % rr
+    cp = self._closure_parent(b)
+    if not cp:
+        return False, "not a closure"
+    par, agg, bi, lhs = cp
+    for cbi, t in par.calls():
+        nm = mir.strip_generics(mir.callee_name(t) or "")
+        if nm.endswith("::fold") and any((mir.op_place(a) or {}).get("l") == lhs["l"] for a in t["args"]):
+            chain = repr(G.describe(par, t["args"][0]))
+            if "std::iter::Iterator::filter(" not in chain:
+                return False, "no filter adaptor in front of fold"
+            for cid in self.prog.closures_of.get(par.id, []):
+                cb = self.prog.bodies[cid]
+                calls = [mir.strip_generics(mir.callee_name(tt) or "") for _, tt in cb.calls()]
+                if calls == ["std::vec::Vec::is_empty"]:
+                    nots = [st for blk in cb.blocks for st in blk["stmts"] if st["k"] == "assign" and st["rv"]["k"] == "unop" and st["rv"]["op"] == "Not"]
+                    if nots:
+                        return True, "items reach fold only through filter(|p| !p.is_empty())"
+            return False, "filter closure is not `!is_empty()`"
+    return False, "closure is not the fold callback"
